@@ -86,13 +86,24 @@ def run_trials(kind, obj, dump, change):
         work = os.path.join(tmp, "d")
         os.mkdir(work)
         dest = os.path.join(work, "metadata")
-        for path, inst, name, k in fault_points(obj):
-            for existing in (True, False):
-                if existing:
+        twin = os.path.join(tmp, "twin")          # second name (hard link) / real file behind a symlink
+        for n_fp, (path, inst, name, k) in enumerate(fault_points(obj)):
+            for existing in (True, False, ["hardlink", "symlink"][n_fp % 2]):
+                for leftover in (dest, twin):
+                    if os.path.lexists(leftover):
+                        os.unlink(leftover)
+                if existing is True:
                     with open(dest, "wb") as fo:
                         fo.write(old)
-                elif os.path.exists(dest):
-                    os.unlink(dest)
+                elif existing == "hardlink":
+                    # compose tooling hard-links trees: the destination has a second name
+                    with open(dest, "wb") as fo:
+                        fo.write(old)
+                    os.link(dest, twin)
+                elif existing == "symlink":
+                    with open(twin, "wb") as fo:
+                        fo.write(old)
+                    os.symlink(twin, dest)
                 orig = getattr(inst, name)
                 calls = [0]
 
@@ -113,20 +124,23 @@ def run_trials(kind, obj, dump, change):
                 finally:
                     delattr(inst, name)
                 trials += 1
-                where = "%s %s.%s k=%d %s" % (kind, path, name, k, "existing" if existing else "absent")
+                where = "%s %s.%s k=%d %s" % (kind, path, name, k, {True: "existing", False: "absent"}.get(existing, existing))
                 if raised:
                     if existing:
+                        check(os.path.exists(dest), "destination-removed-by-failed-dump", "%s: the destination is gone" % where)
                         with open(dest, "rb") as fo:
                             now = fo.read()
                         check(now == old, "destination-changed-by-failed-dump",
                               lambda: "%s: destination had %d bytes, now %d (%s)" % (where, len(old), len(now), "truncated" if not now else "rewritten"))
+                        if existing == "symlink":
+                            check(os.path.islink(dest), "destination-changed-by-failed-dump", "%s: the symlink was replaced" % where)
                     else:
                         check(not os.path.exists(dest), "file-created-by-failed-dump", "%s: a file was created" % where)
                     listing = sorted(os.listdir(work))
                     check(listing == (["metadata"] if existing else []), "stray-file", "%s: directory now holds %r" % (where, listing))
                     nested = not (inst is obj and k == 1)
                     if nested:
-                        units.append("%s.%s#%d/%s" % (path, name, k, "e" if existing else "a"))
+                        units.append("%s.%s#%d/%s" % (path, name, k, {True: "e", False: "a"}.get(existing, existing)))
                 else:
                     # the validator is reached fewer than k times: no fault happened, the dump must simply have worked
                     with open(dest, "rb") as fo:
